@@ -34,7 +34,8 @@ BUDGET = {'quick': 100, 'thorough': 1500}
 
 def parts(tier):
     return [
-        Part('continuous', schedgen.histories(max_ops=40), quick=200, thorough=1500),
+        Part('continuous', schedgen.histories(max_ops=40), quick=170, thorough=1500),
+        Part('lfs_mem_heavy', schedgen.histories(max_ops=25, heavy=True, app=False), quick=60, thorough=400),
         Part('jsrun', schedgen.histories(max_ops=30, cls='jsrun', app=False), quick=40, thorough=300),
         Part('nodelist', nodelistsim.nl_cases(), quick=250, thorough=2500),
     ]
